@@ -186,9 +186,16 @@ def gen_fn(fn):
 def generate(table_json, out_path):
     js = json.load(open(table_json))
     parts = ["// GENERATED by translate/capi_calls.py from %s -- do not edit" % table_json]
-    usable = [fn for fn in js["functions"] if not fn.get("unreadable")]
-    for fn in usable:
-        parts.append(gen_fn(fn))
+    usable = []
+    js["no_stub"] = {}     # wrappers the harness has no fixture / no argument recipe for (e.g. a new object class)
+    for fn in js["functions"]:
+        if fn.get("unreadable"):
+            continue
+        try:
+            parts.append(gen_fn(fn))
+            usable.append(fn)
+        except (KeyError, RuntimeError, AssertionError) as e:
+            js["no_stub"][fn["name"]] = ("no fixture object of class %s in harness/capi_drv.cc" % e) if isinstance(e, KeyError) else str(e)
     parts.append("static const Entry ENTRIES[] = {")
     for fn in usable:
         parts.append('  {"%s", call_%s, %d},' % (fn["name"], fn["name"], len(fn["params"])))
